@@ -42,15 +42,24 @@ def rtLine {α} [DecidableEq α] (cd : Codec α) (x : α) (extra : Nat) : String
   | none => "err"
   | some (y, rest) => s!"ok consumed={b.length + extra - rest.length} size={b.length} eq={showB (decide (y = x))}"
 
+/-- `all` offsets: every offset for images up to 4096 bytes, otherwise the first 64, the last 64 and 256 evenly
+    spaced ones (the harness uses the same rule) -/
+def allOffsets (size : Nat) (inclusive : Bool) : List Nat :=
+  let top := if inclusive then size + 1 else size
+  if size ≤ 4096 then List.range top
+  else
+    let v := List.range 64 ++ (List.range 256).map (fun i => i * size / 256) ++ (List.range 64).map (fun i => top - 64 + i)
+    (v.toArray.qsort (· < ·)).toList.eraseDups
+
 def truncLine {α} (cd : Codec α) (x : α) (offs : Option (List Nat)) : String :=
   let b := cd.put x
-  let offsets := (match offs with | none => List.range b.length | some l => l).filter (· < b.length)
+  let offsets := (match offs with | none => allOffsets b.length false | some l => l).filter (· < b.length)
   let oks := offsets.filter fun k => (cd.get (b.take k)).isSome
   s!"size={b.length} ok={oks.length} err={offsets.length - oks.length} panic=0 first_bad={showON oks.head?}"
 
 def wfailLine {α} (cd : Codec α) (x : α) (offs : Option (List Nat)) : String :=
   let n := (cd.put x).length
-  let offsets := match offs with | none => List.range (n + 1) | some l => l
+  let offsets := match offs with | none => allOffsets n true | some l => l
   let oks := offsets.filter (· ≥ n)
   s!"size={n} ok={oks.length} err={offsets.length - oks.length} panic=0 prefix_ok=1 first_bad=none"
 
